@@ -457,6 +457,9 @@ type c17Run struct {
 	segMS     int64
 	lastMPD   *recvMPD
 	ino       *c17Inotify
+	// after a restart a non-video track delivered media before any video track did (the receiver then takes
+	// that track as master until the video returns)
+	nonVideoFirst bool
 }
 
 func (C17) Run(t *testing.T, sc *core.Scenario, res *core.Result) {
@@ -659,6 +662,17 @@ func (r *c17Run) deliver(ri *recvInst, op c17Op) bool {
 		return true
 	}
 	ts.accepted[nr] = true
+	if r.restarts > 0 && ts.def.Kind != "video" {
+		videoBack := false
+		for _, o := range r.tracks {
+			if o.def.Kind == "video" && o.sinceBoot {
+				videoBack = true
+			}
+		}
+		if !videoBack {
+			r.nonVideoFirst = true // after a restart a non-video track delivered media before any video track
+		}
+	}
 	ts.sinceBoot = true
 	if ts.firstStep < 0 {
 		ts.firstStep = r.step
@@ -1002,7 +1016,7 @@ func (r *c17Run) checkTimeline(m *recvMPD) {
 				if sm.Tfdt == s.T {
 					which = "d"
 				}
-				res.Violate("C17.mpd-agrees-with-storage", r.sig("kind", "listed-timing-differs", "which", which, "content", rep.ContentType),
+				res.Violate("C17.mpd-agrees-with-storage", r.sig("kind", "listed-timing-differs", "which", which, "content", rep.ContentType, "after-restart-nonvideo-first", fmt.Sprint(r.nonVideoFirst)),
 					"%s: MPD lists t=%d d=%d, the stored segment has tfdt=%d duration=%d", rel, s.T, s.D, sm.Tfdt, sm.Dur)
 			}
 		}
@@ -1064,10 +1078,15 @@ func (r *c17Run) checkStored(op c17Op, ts *c17TrackState, body []byte, sm c17Seg
 	if _, ok := r.snap[want]; ok {
 		cands = append(cands, want)
 	}
-	if len(cands) == 0 {
-		// nothing changed: a repeated upload may have been rewritten to exactly the bytes that are already there
-		for _, n := range c17Numbers(r.snap, op.Tr, ext) {
-			cands = append(cands, fmt.Sprintf("%s/%d%s", op.Tr, n, ext))
+	// then the unchanged files: a repeated upload may have been rewritten to exactly the bytes that are already there
+	nChanged := len(cands)
+	inCands := map[string]bool{}
+	for _, c := range cands {
+		inCands[c] = true
+	}
+	for _, n := range c17Numbers(r.snap, op.Tr, ext) {
+		if name := fmt.Sprintf("%s/%d%s", op.Tr, n, ext); !inCands[name] {
+			cands = append(cands, name)
 		}
 	}
 	for _, name := range cands {
@@ -1100,7 +1119,7 @@ func (r *c17Run) checkStored(op c17Op, ts *c17TrackState, body []byte, sm c17Seg
 		kind = "accepted-upload-stored-with-other-content"
 	}
 	res.Violate("C17.accepted-is-stored", r.sig("kind", kind, "content", ts.def.Kind),
-		"%s (number %d) answered 2xx; no file of track %s holds its samples (expected %s; changed files %v; track has %v)", op.recvUpload, nr, op.Tr, want, cands,
+		"%s (number %d) answered 2xx; no file of track %s holds its samples (expected %s; changed files %v; track has %v)", op.recvUpload, nr, op.Tr, want, cands[:nChanged],
 		c17Numbers(r.snap, op.Tr, ext))
 }
 
